@@ -52,12 +52,11 @@ func (dc *DocumentChunker) ChunkDocument(doc *model.Document) *ChunkCollection {
 
 	// Build section context from headings
 	toc := doc.TableOfContents()
-	currentSection := []string{}
-	currentHeadingLevel := 0
+	sections := &sectionStack{}
 
 	// Process each page
 	for _, page := range doc.Pages {
-		pageChunks := dc.chunkPage(page, docTitle, &currentSection, &currentHeadingLevel, toc, &chunkIndex)
+		pageChunks := dc.chunkPage(page, docTitle, sections, toc, &chunkIndex)
 		chunks = append(chunks, pageChunks...)
 	}
 
@@ -70,7 +69,7 @@ func (dc *DocumentChunker) ChunkDocument(doc *model.Document) *ChunkCollection {
 }
 
 // chunkPage chunks a single page
-func (dc *DocumentChunker) chunkPage(page *model.Page, docTitle string, currentSection *[]string, currentHeadingLevel *int, toc []model.TOCEntry, chunkIndex *int) []*Chunk {
+func (dc *DocumentChunker) chunkPage(page *model.Page, docTitle string, sections *sectionStack, toc []model.TOCEntry, chunkIndex *int) []*Chunk {
 	var chunks []*Chunk
 
 	if page == nil {
@@ -100,10 +99,10 @@ func (dc *DocumentChunker) chunkPage(page *model.Page, docTitle string, currentS
 
 				// Update section path
 				headingLevel := getHeadingLevel(e.Text, toc, page.Number)
-				updateSectionPath(currentSection, currentHeadingLevel, headingLevel, e.Text)
+				sections.push(headingLevel, e.Text)
 
 				// Create heading chunk
-				chunk := dc.createHeadingChunk(e.Text, docTitle, *currentSection, headingLevel, page.Number, chunkIndex)
+				chunk := dc.createHeadingChunk(e.Text, docTitle, sections.path(), headingLevel, page.Number, chunkIndex)
 				chunks = append(chunks, chunk)
 			} else {
 				// Accumulate text
@@ -111,7 +110,7 @@ func (dc *DocumentChunker) chunkPage(page *model.Page, docTitle string, currentS
 					currentBlock.text += "\n\n"
 				}
 				currentBlock.text += e.Text
-				currentBlock.sectionPath = append([]string{}, *currentSection...)
+				currentBlock.sectionPath = sections.path()
 				currentBlock.elementTypes = appendUnique(currentBlock.elementTypes, "paragraph")
 			}
 
@@ -120,10 +119,10 @@ func (dc *DocumentChunker) chunkPage(page *model.Page, docTitle string, currentS
 			flushTextBlock()
 
 			// Update section path
-			updateSectionPath(currentSection, currentHeadingLevel, e.Level, e.Text)
+			sections.push(e.Level, e.Text)
 
 			// Create heading chunk
-			chunk := dc.createChunkFromHeading(e, docTitle, *currentSection, page.Number, chunkIndex)
+			chunk := dc.createChunkFromHeading(e, docTitle, sections.path(), page.Number, chunkIndex)
 			chunks = append(chunks, chunk)
 
 		case *model.List:
@@ -131,7 +130,7 @@ func (dc *DocumentChunker) chunkPage(page *model.Page, docTitle string, currentS
 			flushTextBlock()
 
 			// Create list chunk
-			chunk := dc.createListChunk(e, docTitle, *currentSection, page.Number, chunkIndex)
+			chunk := dc.createListChunk(e, docTitle, sections.path(), page.Number, chunkIndex)
 			chunks = append(chunks, chunk)
 
 		case *model.Table:
@@ -139,7 +138,7 @@ func (dc *DocumentChunker) chunkPage(page *model.Page, docTitle string, currentS
 			flushTextBlock()
 
 			// Create table chunk
-			chunk := dc.createTableChunk(e, docTitle, *currentSection, page.Number, chunkIndex)
+			chunk := dc.createTableChunk(e, docTitle, sections.path(), page.Number, chunkIndex)
 			chunks = append(chunks, chunk)
 
 		case *model.Image:
@@ -148,7 +147,7 @@ func (dc *DocumentChunker) chunkPage(page *model.Page, docTitle string, currentS
 
 			// Create image chunk if it has alt text
 			if e.AltText != "" {
-				chunk := dc.createImageChunk(e, docTitle, *currentSection, page.Number, chunkIndex)
+				chunk := dc.createImageChunk(e, docTitle, sections.path(), page.Number, chunkIndex)
 				chunks = append(chunks, chunk)
 			}
 		}
@@ -436,23 +435,44 @@ func getHeadingLevel(text string, toc []model.TOCEntry, pageNum int) int {
 	return 1 // Default to level 1
 }
 
-// updateSectionPath updates the section path based on heading level
-func updateSectionPath(sectionPath *[]string, currentLevel *int, newLevel int, headingText string) {
-	headingText = strings.TrimSpace(headingText)
+// sectionStack tracks the headings that enclose the current position together
+// with their levels. A new heading closes every open section of the same or a
+// deeper level, whatever levels were skipped on the way down (H3, H4, H2 leaves
+// only the H2 open).
+type sectionStack struct {
+	titles []string
+	levels []int
+}
 
-	if newLevel <= *currentLevel {
-		// Pop sections until we're at the right level
-		for len(*sectionPath) >= newLevel {
-			if len(*sectionPath) > 0 {
-				*sectionPath = (*sectionPath)[:len(*sectionPath)-1]
-			} else {
-				break
-			}
-		}
+// push records a heading of the given level.
+func (s *sectionStack) push(level int, headingText string) {
+	n := len(s.levels)
+	for n > 0 && s.levels[n-1] >= level {
+		n--
 	}
+	s.titles = append(s.titles[:n], strings.TrimSpace(headingText))
+	s.levels = append(s.levels[:n], level)
+}
 
-	// Add new section
-	*sectionPath = append(*sectionPath, headingText)
+// path returns a copy of the current section path; chunks keep the returned
+// slice, so it must not share memory with the stack.
+func (s *sectionStack) path() []string {
+	return append([]string{}, s.titles...)
+}
+
+// updateSectionPath updates the section path based on heading level. Only the
+// level of the innermost section is known here, so the path is taken to be a
+// contiguous chain of levels ending at *currentLevel.
+func updateSectionPath(sectionPath *[]string, currentLevel *int, newLevel int, headingText string) {
+	stack := sectionStack{}
+	n := len(*sectionPath)
+	for i, title := range *sectionPath {
+		stack.titles = append(stack.titles, title)
+		stack.levels = append(stack.levels, *currentLevel-(n-1-i))
+	}
+	stack.push(newLevel, headingText)
+
+	*sectionPath = stack.path()
 	*currentLevel = newLevel
 }
 
